@@ -63,11 +63,11 @@ Proof.
   cbn [existsb fst snd]. rewrite !orb_false_r. intro H. apply orb_true_iff in H as [H|H]; rewrite H; rewrite ?orb_true_r; reflexivity.
 Qed.
 
-(* ---- whole programs: the two classes on which the formatter changes the program *)
+(* ---- whole programs: the class on which the formatter changes the program, and a former one *)
 Definition call1 (f a : N) : expr := ECall (idn f) [idn a].
 (* `f a` / (doc comment) / `g b`: two main pipelines; printed without the doc comment they are one pipeline *)
 Definition split_witness : list stmt := [SMain [] (call1 102 97); SMain [] (call1 103 98)].
-(* `x = (f a | g b)` as a statement: the alias is dropped *)
+(* `x = (f a | g b)` as a statement: the alias was dropped before commit e3202e5 *)
 Definition alias_pipeline_witness : list stmt := [SMain [] (EAlias [120] (EGroup GPipe [call1 102 97; call1 103 98]))].
 (* module m { let a = 1 / module n { let b / f t | s c | into z } } / @(f x) @{a = b} f m / import q = a.`b c` / let g = func x -> x / x = f a *)
 Definition program_witness : list stmt :=
@@ -92,9 +92,6 @@ Proof.
   split; [reflexivity|]. split; [vm_compute; reflexivity|].
   apply (prog_never _ [SMain [] (EGroup GPipe [call1 102 97; call1 103 98])] 40); [vm_compute; reflexivity | discriminate].
 Qed.
-Lemma alias_pipeline_refuted : wf_prog alias_pipeline_witness = true /\ ops_ok_prog nbin nun alias_pipeline_witness = true /\
-  forall f, parse_prog_prql f (fmt_prog_toks alias_pipeline_witness) <> Some alias_pipeline_witness.
-Proof.
-  split; [reflexivity|]. split; [vm_compute; reflexivity|].
-  apply (prog_never _ [SMain [] (EGroup GPipe [call1 102 97; call1 103 98])] 40); [vm_compute; reflexivity | discriminate].
-Qed.
+(* since commit e3202e5 the aliased pipeline is written as one aliased expression and parses back *)
+Lemma alias_pipeline_roundtrips : parse_prog_prql 40 (fmt_prog_toks alias_pipeline_witness) = Some alias_pipeline_witness.
+Proof. vm_compute. reflexivity. Qed.
